@@ -25,7 +25,12 @@ pub enum QOp {
     ConsumeBig(u8),
 }
 
-pub const BIG: [usize; 2] = [65536, 70001];
+pub const BIG: [usize; 5] = [65536, 70001, 1_048_577, 2_200_000, 3_300_000];
+
+/// the alphabet of the third pass: operations of more than 1 MiB and more than 2 MiB on a chunk of 3.3 MB
+pub fn huge_ops() -> Vec<QOp> {
+    vec![QOp::Write(1), QOp::WriteBig(4), QOp::Flush, QOp::Consume(1), QOp::ConsumeBig(2), QOp::ConsumeBig(3), QOp::Read(5), QOp::ClearButLast]
+}
 
 /// the alphabet of the second pass: one-byte and very large operations
 pub fn big_ops() -> Vec<QOp> {
@@ -92,7 +97,7 @@ pub fn op_json(op: &QOp) -> Value {
 }
 
 pub fn parse_op(s: &str) -> Option<QOp> {
-    all_ops().into_iter().chain(big_ops()).find(|o| format!("{:?}", o) == s)
+    all_ops().into_iter().chain(big_ops()).chain(huge_ops()).find(|o| format!("{:?}", o) == s)
 }
 
 struct Run {
@@ -324,6 +329,11 @@ pub fn explore(ctx: &Ctx, depth: usize, cap: usize, viol: &Violations, samples: 
 /// second pass: one-byte and >= 64 KiB operations
 pub fn explore_big(ctx: &Ctx, depth: usize, cap: usize, viol: &Violations, samples: &Samples) -> BfsStats {
     explore_with(ctx, big_ops(), depth, cap, viol, samples)
+}
+
+/// third pass: multi-megabyte operations
+pub fn explore_huge(ctx: &Ctx, depth: usize, cap: usize, viol: &Violations, samples: &Samples) -> BfsStats {
+    explore_with(ctx, huge_ops(), depth, cap, viol, samples)
 }
 
 fn explore_with(ctx: &Ctx, ops: Vec<QOp>, depth: usize, cap: usize, viol: &Violations, samples: &Samples) -> BfsStats {
